@@ -404,7 +404,7 @@ pub fn run(ctx: &mut Ctx) {
                 }
             }
         }
-        for rep in 0..tier.pick(2, 2000, 40000) {
+        for rep in 0..tier.pick(2, 30_000, 200_000) {
             let n = rng.below(cap + 1);
             let a = Spec::set(ty, gen::random_bits(n, &mut rng));
             judge(ctx, &Case::new("within").with("a", a.enc()).with("seed", ctx.seed * 7919 + rep as u64 * 31 + ty as u64), "W-valid-edit-walks");
